@@ -211,6 +211,11 @@ def apply(root, fns, mode):
                 total += rename_in_range(lines, f["l"], f["l_end"], local_names(f))
             if mode in ("incr", "both"):
                 total += incr_in_range(lines, f["l"], f["l_end"])
+            if mode == "pad" and isinstance(f.get("body"), dict) and f["body"].get("l"):
+                bl = f["body"]["l"] - 1
+                if bl < len(lines) and lines[bl].rstrip().endswith("{") and "namespace" not in lines[bl] and not f.get("constexpr"):
+                    lines[bl] = lines[bl].rstrip() + " [[maybe_unused]] const int verif_pad_nv = 0;"
+                    total += 1
             if mode == "flip":
                 total += flip_in_range(lines, f["l"], f["l_end"])
             if mode == "braces":
@@ -279,9 +284,8 @@ def main():
             print("  [%s] %d functions, %d edits -> exit %d" % (label, len(sub), n, rc_))
             for l in lines[:8]:
                 print("      " + l[:300])
-            if a.keep and rc_ != 0:
-                print("      kept:", root)
-                return rc_, n
+            if "opmfacts failed" in out_ and "error:" in out_:
+                return -1, n      # the edit itself does not compile: a limitation of this tool, not of the rule
             return rc_, n
         finally:
             if not (a.keep and False):
@@ -304,8 +308,21 @@ def main():
             if r_ != 0:
                 bisect(part, depth + 1)
     bisect(fns)
+    real, invalid = [], []
     for f in culprits:
+        r_, _ = trial([f], "single")
+        (invalid if r_ == -1 else real).append(f)
+    for f in invalid:
+        print("NEUTRAL-INVALID-EDIT (the textual rename does not compile; function skipped) %s %s:%d" % (f["q"], f["file"], f["l"]))
+    for f in real:
         print("NEUTRAL-FAIL property=%s function=%s %s:%d" % (a.pid, f["q"], f["file"], f["l"]))
+    if not real:
+        keep = [f for f in fns if not any(f is g for g in invalid)]
+        r_, n = trial(keep, "all-valid")
+        if r_ == 0:
+            print("NEUTRAL-OK property=%s mode=%s edits=%d (without %d functions whose edit does not compile)" % (a.pid, a.mode, n, len(invalid)))
+            return 0
+        print("NEUTRAL-FAIL property=%s (combination)" % a.pid)
     return 1
 
 
